@@ -138,14 +138,15 @@ def handle : Handler := fun op inp impl => do
      | some wl =>
        [match wl.saved with | .none => "saved:none" | .bad => "saved:bad" | .some _ => "saved:some",
         if wl.ctl = .none then "ctl:none" else if controlled br wl then "ctl:this" else "ctl:other"] ++
+       (if w.hpaV2.any (fun h => h.av = .absent) || w.hpaV1.any (fun h => h.av = .absent) then ["hpa:noApiVersion"] else []) ++
        (if f.get then ["trivial"] else [])) ++
     [match findHPA w noFault with
-     | .panic => "hpa:panic"
+     | .err => "hpa:err"
      | .val none => "hpa:none"
      | .val (some (_, 0)) => "hpa:enabled"
      | .val (some _) => "hpa:disabled",
      s!"rs:{w.rss.length}"] ++
-    RV.Oracle.CtlBlueGreen.guardTags kind cop w br f orig
+    RV.Oracle.CtlBlueGreen.guardTags kind cop w br orig
   match op with
   | "step" =>
     let m := call kind cop w br f
@@ -153,7 +154,7 @@ def handle : Handler := fun op inp impl => do
       | some _ => pure [("C09.bg_no_panic", RV.Oracle.CtlBlueGreen.panicAllowed cop w br)]
       | none => do
         let o ← callOutOfJson impl
-        pure (RV.Oracle.CtlBlueGreen.stepOracles kind cop w br orig o))
+        pure (RV.Oracle.CtlBlueGreen.stepOracles kind cop w br f orig o))
     let rtag := match jopt impl "panic" with
       | some _ => ["res:panic"]
       | none => match jopt impl "res" with
